@@ -35,16 +35,17 @@ VARIABLES
     cbseen,   \* set of <<k, instance>> exit-callback reports seen
     boReset,  \* clk of the latest backoff Reset
     boStop,   \* clk of the latest NextBackOff that returned Stop (the backoff gave up)
+    rootdead, \* tags of root contexts that the client has cancelled
     td,       \* teardown started
     bad
 
 pvars == <<cfg, clk, now, pctx, prt, epoch, inst, calls, snapw, chs, credit, creditR, needEnter,
-           ctxTouch, status, cbseen, boReset, boStop, td, bad>>
+           ctxTouch, status, cbseen, boReset, boStop, rootdead, td, bad>>
 
 PInitCfg(variant, retry) ==
     /\ cfg = [variant |-> variant, retry |-> retry, burst |-> FALSE] /\ clk = 0 /\ now = 0 /\ pctx = 0 /\ prt = 0 /\ epoch = 0
     /\ inst = <<>> /\ calls = <<>> /\ snapw = <<>> /\ chs = <<>>
-    /\ credit = 0 /\ creditR = 0 /\ needEnter = 0 /\ ctxTouch = 0 /\ status = 0 /\ cbseen = {} /\ boReset = 0 /\ boStop = 0
+    /\ credit = 0 /\ creditR = 0 /\ needEnter = 0 /\ ctxTouch = 0 /\ status = 0 /\ cbseen = {} /\ boReset = 0 /\ boStop = 0 /\ rootdead = {}
     /\ td = FALSE /\ bad = {}
 
 PInit == PInitCfg("plain", FALSE)
@@ -52,7 +53,7 @@ PInit == PInitCfg("plain", FALSE)
 PResetCfg(variant, retry) ==
     /\ cfg' = [variant |-> variant, retry |-> retry, burst |-> FALSE] /\ clk' = 0 /\ now' = 0 /\ pctx' = 0 /\ prt' = 0 /\ epoch' = 0
     /\ inst' = <<>> /\ calls' = <<>> /\ snapw' = <<>> /\ chs' = <<>>
-    /\ credit' = 0 /\ creditR' = 0 /\ needEnter' = 0 /\ ctxTouch' = 0 /\ status' = 0 /\ cbseen' = {} /\ boReset' = 0 /\ boStop' = 0
+    /\ credit' = 0 /\ creditR' = 0 /\ needEnter' = 0 /\ ctxTouch' = 0 /\ status' = 0 /\ cbseen' = {} /\ boReset' = 0 /\ boStop' = 0 /\ rootdead' = {}
     /\ td' = FALSE /\ bad' = {}
 
 PReset == PResetCfg("plain", FALSE)
@@ -68,6 +69,10 @@ LiveBorn == {i \in Insts : ~inst[i].dead}
 Latest == IF LiveBorn = {} THEN 0 ELSE CHOOSE i \in LiveBorn : \A j \in LiveBorn : inst[j].eclk <= inst[i].eclk
 \* instance i is the current one: entered in the present epoch and nothing entered after it
 IsCurrent(i) == i # 0 /\ i \in Insts /\ ~inst[i].dead /\ inst[i].ep = epoch /\ i = Latest
+
+\* the context the container can still use: a stored context that the client cancelled counts as none
+\* (the code drops it lazily; instances derived from it are cancelled with it)
+EffCtx == IF pctx \in rootdead THEN 0 ELSE pctx
 
 \* what a WaitExited call may return, given the container state (ctx tag c, routine/state r, status s)
 NilOK(rin, c, r, s) == (rin /\ (c = 0 \/ r = 0)) \/ (c # 0 /\ r # 0 /\ s # 0 /\ inst[s].out = "ok")
@@ -114,7 +119,7 @@ ErrName(i) == IF inst[i].out = "ok" THEN "nil" ELSE IF inst[i].out = "err" THEN 
 PConfig(variant, retry, burst) ==
     /\ cfg' = [variant |-> variant, retry |-> retry, burst |-> burst]
     /\ Tick
-    /\ UNCHANGED <<now, pctx, prt, epoch, inst, calls, snapw, chs, credit, creditR, needEnter, ctxTouch, status, cbseen, boReset, boStop, td, bad>>
+    /\ UNCHANGED <<now, pctx, prt, epoch, inst, calls, snapw, chs, credit, creditR, needEnter, ctxTouch, status, cbseen, boReset, boStop, rootdead, td, bad>>
 
 \* e: the call event record
 PCall(e) ==
@@ -125,15 +130,15 @@ PCall(e) ==
                 c |-> IF e.op \in {"setctx", "clearctx"} THEN e.c ELSE 0,
                 k |-> IF e.op = "setroutine" THEN e.f ELSE IF e.op = "setstate" THEN e.s ELSE 0,
                 canc |-> FALSE, cclk |-> clk + 1,
-                nilok |-> IF w THEN NilOK(e.rin, pctx, prt, status) ELSE FALSE,
-                errok |-> IF w THEN ErrOK(pctx, prt, status) ELSE {},
+                nilok |-> IF w THEN NilOK(e.rin, EffCtx, prt, status) ELSE FALSE,
+                errok |-> IF w THEN ErrOK(EffCtx, prt, status) ELSE {},
                 done |-> FALSE]
     IN
     /\ calls' = (e.id :> rec) @@ calls
     /\ ctxTouch' = IF w THEN ctxTouch ELSE clk + 1
     /\ Tick
     /\ bad' = bad \cup (IF e.id \in DOMAIN calls THEN {"Harness"} ELSE {})
-    /\ UNCHANGED <<cfg, now, pctx, prt, epoch, inst, snapw, chs, credit, creditR, needEnter, status, cbseen, boReset, boStop, td>>
+    /\ UNCHANGED <<cfg, now, pctx, prt, epoch, inst, snapw, chs, credit, creditR, needEnter, status, cbseen, boReset, boStop, rootdead, td>>
 
 \* did the call (by its result) supersede the running instance?
 Superseded(c, e) ==
@@ -149,11 +154,13 @@ PRet(e) ==
     THEN /\ calls' = [calls EXCEPT ![e.id].done = TRUE]
          /\ bad' = bad \cup
               (IF cfg.burst THEN {}
-               ELSE IF e.res = "canceled" THEN (IF c.canc THEN {} ELSE {"WaitWrong"})
+               \* (context.Canceled is also the recorded exit error of an instance whose root context the
+               \* client cancelled -- possibly one that never entered the function and so has no id here)
+               ELSE IF e.res = "canceled" THEN (IF c.canc \/ rootdead # {} THEN {} ELSE {"WaitWrong"})
                ELSE IF e.res = "nil" THEN (IF c.nilok THEN {} ELSE {"WaitWrong"})
                ELSE IF \E i \in c.errok : e.res = ErrName(i) THEN {} ELSE {"WaitWrong"})
          /\ Tick
-         /\ UNCHANGED <<cfg, now, pctx, prt, epoch, inst, snapw, chs, credit, creditR, needEnter, ctxTouch, status, cbseen, boReset, boStop, td>>
+         /\ UNCHANGED <<cfg, now, pctx, prt, epoch, inst, snapw, chs, credit, creditR, needEnter, ctxTouch, status, cbseen, boReset, boStop, rootdead, td>>
     ELSE
     LET sup == Superseded(c, e)
         pctx2 == IF c.op \in {"setctx", "clearctx"} THEN c.c ELSE pctx
@@ -182,17 +189,17 @@ PRet(e) ==
     /\ snapw' = IF sup THEN (c.actor :> c.pre) @@ snapw ELSE snapw
     \* earlier instances: those that had entered the function when the call was issued
     /\ chs' = IF chid # 0 THEN (chid :> (c.pre \cap Active)) @@ chs ELSE chs
-    /\ calls' = Refresh([calls EXCEPT ![e.id].done = TRUE], pctx2, prt2, status2)
+    /\ calls' = Refresh([calls EXCEPT ![e.id].done = TRUE], IF pctx2 \in rootdead THEN 0 ELSE pctx2, prt2, status2)
     /\ Tick
     /\ bad' = bad \cup (IF calls[e.id].done THEN {"Harness"} ELSE {})
-    /\ UNCHANGED <<cfg, now, inst, ctxTouch, cbseen, boReset, boStop, td>>
+    /\ UNCHANGED <<cfg, now, inst, ctxTouch, cbseen, boReset, boStop, rootdead, td>>
 
 \* right after a superseding call returned: which active instances still have a live context
 PCtxSnap(actor, live) ==
     /\ bad' = bad \cup (IF actor \in DOMAIN snapw /\ snapw[actor] \cap live # {} THEN {"NotCancelled"} ELSE {})
     /\ snapw' = [a \in (DOMAIN snapw) \ {actor} |-> snapw[a]]
     /\ Tick
-    /\ UNCHANGED <<cfg, now, pctx, prt, epoch, inst, calls, chs, credit, creditR, needEnter, ctxTouch, status, cbseen, boReset, boStop, td>>
+    /\ UNCHANGED <<cfg, now, pctx, prt, epoch, inst, calls, chs, credit, creditR, needEnter, ctxTouch, status, cbseen, boReset, boStop, rootdead, td>>
 
 PEnter(i, tag, key, dead) ==
     \* earlier runs of the same routine/state whose exit the container recorded (its exit callbacks
@@ -227,14 +234,14 @@ PEnter(i, tag, key, dead) ==
                   /\ ~(cfg.retry /\ ~inst[q].act /\ inst[q].out \in {"ok", "err"} /\ RetryDueNow(key))
                THEN {"RerunNoCause"} ELSE {})
     /\ calls' = calls
-    /\ UNCHANGED <<cfg, now, pctx, prt, epoch, snapw, chs, credit, creditR, ctxTouch, cbseen, boReset, boStop, td>>
+    /\ UNCHANGED <<cfg, now, pctx, prt, epoch, snapw, chs, credit, creditR, ctxTouch, cbseen, boReset, boStop, rootdead, td>>
 
 PLeave(i, out) ==
     LET o == IF out = "ctxret" THEN "ctx" ELSE out IN
     /\ inst' = [inst EXCEPT ![i] = [@ EXCEPT !.act = FALSE, !.out = o, !.lclk = clk + 1, !.ltime = now, !.cur = IsCurrent(i)]]
     /\ Tick
     /\ bad' = bad \cup (IF i \notin Insts \/ ~inst[i].act THEN {"Harness"} ELSE {})
-    /\ UNCHANGED <<cfg, now, pctx, prt, epoch, calls, snapw, chs, credit, creditR, needEnter, ctxTouch, status, cbseen, boReset, boStop, td>>
+    /\ UNCHANGED <<cfg, now, pctx, prt, epoch, calls, snapw, chs, credit, creditR, needEnter, ctxTouch, status, cbseen, boReset, boStop, rootdead, td>>
 
 \* exit callback k ran for the exit of instance i (0: an instance that never entered the function)
 PExitCb(k, i, err) ==
@@ -248,35 +255,44 @@ PExitCb(k, i, err) ==
          \cup (IF i # 0 /\ (i \notin Insts \/ inst[i].act) THEN {"ExitCbFabricated"}
                ELSE IF i # 0 /\ err # ErrName(i) THEN {"ExitCbWrongErr"} ELSE {})
     \* the bookkeeping of the instance is done: its status is now visible to WaitExited
-    /\ calls' = IF IsCurrent(i) THEN Refresh(calls, pctx, prt, i) ELSE calls
-    /\ UNCHANGED <<cfg, now, pctx, prt, epoch, inst, snapw, chs, credit, creditR, needEnter, ctxTouch, boReset, boStop, td>>
+    /\ calls' = IF IsCurrent(i) THEN Refresh(calls, EffCtx, prt, i) ELSE calls
+    /\ UNCHANGED <<cfg, now, pctx, prt, epoch, inst, snapw, chs, credit, creditR, needEnter, ctxTouch, boReset, boStop, rootdead, td>>
 
 \* C04: the channel returned by SetRoutine/SetState closed
 PChClosed(ch) ==
     /\ bad' = bad \cup (IF ch \in DOMAIN chs /\ chs[ch] \cap Active # {} THEN {"ChEarly"} ELSE {})
     /\ Tick
-    /\ UNCHANGED <<cfg, now, pctx, prt, epoch, inst, calls, snapw, chs, credit, creditR, needEnter, ctxTouch, status, cbseen, boReset, boStop, td>>
+    /\ UNCHANGED <<cfg, now, pctx, prt, epoch, inst, calls, snapw, chs, credit, creditR, needEnter, ctxTouch, status, cbseen, boReset, boStop, rootdead, td>>
 
 PCancel(id) ==
     /\ calls' = IF id \in DOMAIN calls THEN [calls EXCEPT ![id].canc = TRUE] ELSE calls
     /\ Tick
-    /\ UNCHANGED <<cfg, now, pctx, prt, epoch, inst, snapw, chs, credit, creditR, needEnter, ctxTouch, status, cbseen, boReset, boStop, td, bad>>
+    /\ UNCHANGED <<cfg, now, pctx, prt, epoch, inst, snapw, chs, credit, creditR, needEnter, ctxTouch, status, cbseen, boReset, boStop, rootdead, td, bad>>
 
 PTick(d) ==
     /\ now' = now + d
     /\ Tick
-    /\ UNCHANGED <<cfg, pctx, prt, epoch, inst, calls, snapw, chs, credit, creditR, needEnter, ctxTouch, status, cbseen, boReset, boStop, td, bad>>
+    /\ UNCHANGED <<cfg, pctx, prt, epoch, inst, calls, snapw, chs, credit, creditR, needEnter, ctxTouch, status, cbseen, boReset, boStop, rootdead, td, bad>>
 
 PBo(op) ==
     /\ boReset' = IF op = "reset" THEN clk + 1 ELSE boReset
     /\ boStop' = IF op = "stop" THEN clk + 1 ELSE boStop
     /\ Tick
-    /\ UNCHANGED <<cfg, now, pctx, prt, epoch, inst, calls, snapw, chs, credit, creditR, needEnter, ctxTouch, status, cbseen, td, bad>>
+    /\ UNCHANGED <<cfg, now, pctx, prt, epoch, inst, calls, snapw, chs, credit, creditR, needEnter, ctxTouch, status, cbseen, rootdead, td, bad>>
+
+\* The client cancelled root context `tag` (every context derived from it is cancelled with it).
+PRootCancel(tag) ==
+    /\ rootdead' = rootdead \cup {tag}
+    /\ needEnter' = IF tag = pctx THEN 0 ELSE needEnter
+    \* a pending WaitExited(returnIfNotRunning) may now return nil: nothing can run any more
+    /\ calls' = Refresh(calls, IF pctx \in rootdead \cup {tag} THEN 0 ELSE pctx, prt, status)
+    /\ Tick
+    /\ UNCHANGED <<cfg, now, pctx, prt, epoch, inst, snapw, chs, credit, creditR, ctxTouch, status, cbseen, boReset, boStop, td, bad>>
 
 PTeardown ==
     /\ td' = TRUE
     /\ Tick
-    /\ UNCHANGED <<cfg, now, pctx, prt, epoch, inst, calls, snapw, chs, credit, creditR, needEnter, ctxTouch, status, cbseen, boReset, boStop, bad>>
+    /\ UNCHANGED <<cfg, now, pctx, prt, epoch, inst, calls, snapw, chs, credit, creditR, needEnter, ctxTouch, status, cbseen, boReset, boStop, rootdead, bad>>
 
 \* Observation at a point where no library-internal step is possible.
 \* live/active: instances inside the function (with a live context); blk: blocked call ids;
@@ -287,26 +303,30 @@ QuietBad(live, active, blk, gstate) ==
         untouched == L # 0 /\ ctxTouch < inst[L].eclk
     IN
     (IF Cardinality(live) > 1 THEN {"LiveMany"} ELSE {})
-    \cup (IF live # {} /\ (pctx = 0 \/ prt = 0) THEN {"LiveOrphan"} ELSE {})
-    \cup (IF \E i \in live : pctx # 0 /\ inst[i].tag # pctx THEN {"LiveStaleCtx"} ELSE {})
+    \cup (IF live # {} /\ (EffCtx = 0 \/ prt = 0) THEN {"LiveOrphan"} ELSE {})
+    \cup (IF \E i \in live : EffCtx # 0 /\ inst[i].tag # pctx THEN {"LiveStaleCtx"} ELSE {})
     \cup (IF \E i \in live : prt # 0 /\ inst[i].key # prt THEN {"LiveStale"} ELSE {})
     \cup (IF gstate >= 0 /\ gstate # prt THEN {"StateLost"} ELSE {})
     \cup (IF active # Active \/ ~(live \subseteq active) THEN {"Harness"} ELSE {})
     \* C14 "by nothing else": the current instance (no superseding call returned since it entered, nothing
     \* entered after it) is inside the function with a cancelled context although the container has a
     \* context: something other than an API call took it down (first half of an illegitimate re-run)
-    \cup (IF \E i \in active \ live : IsCurrent(i) /\ pctx # 0 THEN {"CancelNoCause"} ELSE {})
+    \cup (IF \E i \in active \ live : IsCurrent(i) /\ EffCtx # 0 THEN {"CancelNoCause"} ELSE {})
     \* C14 liveness, only while nothing is inside the function
-    \cup (IF needEnter # 0 /\ active = {} /\ pctx # 0 /\ prt # 0 THEN {"RestartLost"} ELSE {})
-    \cup (IF cfg.retry /\ curLeft /\ inst[L].out = "err" /\ active = {} /\ pctx # 0 /\ prt # 0
+    \cup (IF needEnter # 0 /\ active = {} /\ EffCtx # 0 /\ prt # 0 THEN {"RestartLost"} ELSE {})
+    \cup (IF cfg.retry /\ curLeft /\ inst[L].out = "err" /\ active = {} /\ EffCtx # 0 /\ prt # 0
               /\ untouched /\ now >= inst[L].ltime + 13 /\ boStop < inst[L].lclk
           THEN {"RetryLost"} ELSE {})
     \cup (IF cfg.retry /\ curLeft /\ inst[L].out = "ok" /\ untouched /\ boReset < inst[L].lclk THEN {"BackoffNotReset"} ELSE {})
     \cup (IF \E id \in blk : id \in DOMAIN calls /\ calls[id].op = "waitexited"
-                 /\ (NilOK(calls[id].rin, pctx, prt, status) \/ ErrOK(pctx, prt, status) # {})
+                 \* (a context cancelled by the client is noticed lazily: the waiter is only woken by
+                 \* the exit bookkeeping of the instance, so it may stay blocked while one is inside)
+                 /\ \/ (calls[id].rin /\ (pctx = 0 \/ prt = 0))
+                    \/ (calls[id].rin /\ pctx \in rootdead /\ active = {})
+                    \/ (EffCtx # 0 /\ prt # 0 /\ status # 0)
           THEN {"WaitStuck"} ELSE {})
     \* every exit of a current instance is reported once to each exit callback
-    \cup (IF curLeft /\ untouched /\ pctx # 0 /\ prt # 0 /\ inst[L].out # "ctx"
+    \cup (IF curLeft /\ untouched /\ EffCtx # 0 /\ prt # 0 /\ inst[L].out # "ctx"
               /\ (<<1, L>> \notin cbseen \/ <<2, L>> \notin cbseen)
           THEN {"ExitCbMissing"} ELSE {})
 
@@ -314,7 +334,7 @@ QuietBad(live, active, blk, gstate) ==
 BurstQuietBad(live, active, gstate) ==
     (IF Cardinality(live) > 1 THEN {"LiveMany"} ELSE {})
     \cup (IF live # {} /\ (pctx = 0 \/ gstate = 0) THEN {"LiveOrphan"} ELSE {})
-    \cup (IF \E i \in live : pctx # 0 /\ inst[i].tag # pctx THEN {"LiveStaleCtx"} ELSE {})
+    \cup (IF \E i \in live : EffCtx # 0 /\ inst[i].tag # pctx THEN {"LiveStaleCtx"} ELSE {})
     \cup (IF \E i \in live : gstate > 0 /\ inst[i].key # gstate THEN {"LiveStale"} ELSE {})
     \cup (IF active # Active \/ ~(live \subseteq active) THEN {"Harness"} ELSE {})
 
@@ -322,14 +342,14 @@ BurstQuietBad(live, active, gstate) ==
 \* function / with a live context.  A call's critical section and its return are one step, so no
 \* superseding call can be half done here.
 PCState(live, active) ==
-    /\ bad' = bad \cup (IF ~td /\ ~cfg.burst /\ \E i \in active \ live : IsCurrent(i) /\ pctx # 0 THEN {"CancelNoCause"} ELSE {})
+    /\ bad' = bad \cup (IF ~td /\ ~cfg.burst /\ \E i \in active \ live : IsCurrent(i) /\ EffCtx # 0 THEN {"CancelNoCause"} ELSE {})
     /\ Tick
-    /\ UNCHANGED <<cfg, now, pctx, prt, epoch, inst, calls, snapw, chs, credit, creditR, needEnter, ctxTouch, status, cbseen, boReset, boStop, td>>
+    /\ UNCHANGED <<cfg, now, pctx, prt, epoch, inst, calls, snapw, chs, credit, creditR, needEnter, ctxTouch, status, cbseen, boReset, boStop, rootdead, td>>
 
 PQuiet(live, active, blk, gstate) ==
     /\ bad' = bad \cup (IF td THEN {} ELSE IF cfg.burst THEN BurstQuietBad(live, active, gstate) ELSE QuietBad(live, active, blk, gstate))
     /\ Tick
-    /\ UNCHANGED <<cfg, now, pctx, prt, epoch, inst, calls, snapw, chs, credit, creditR, needEnter, ctxTouch, status, cbseen, boReset, boStop, td>>
+    /\ UNCHANGED <<cfg, now, pctx, prt, epoch, inst, calls, snapw, chs, credit, creditR, needEnter, ctxTouch, status, cbseen, boReset, boStop, rootdead, td>>
 
 -----------------------------------------------------------------------------
 (* Properties *)
